@@ -575,7 +575,7 @@ def correspond(ctx):
                     ctx.dist('writer-raises:' + line)
                     if line != 'err crash:IndexError' or not name.startswith('hub'):
                         ctx.broke('relational', 'writer-raises', f'{name} [{spec!r}] {line}')
-                if len(ctx.cov['samples']) < 6 and nontrivial and text and 12 < len(text) < 70 and ('1' in text or '@' in text or '/' in text) \
+                if len(ctx.cov['samples']) < 6 and nontrivial and text and 12 < len(text) < 70 and len(m) >= 6 and ('@' in text or '/' in text or ('1' in text and ':' not in text)) \
                         and spec != _state.get('last_sample_spec'):
                     _state['last_sample_spec'] = spec
                     ctx.sample({'molecule': name, 'style': spec, 'written': text, 'order': order})
